@@ -142,6 +142,13 @@ for _p, _what in (("C03", "the reply rule of execute_submsg (reply_on variants p
         "checklib/tr_rules.py (regex + bracket matching) extracts " + _what + "; that the model's functions implement the tabled steps is by "
         "inspection of ~30 lines (for the mode sets it is a theorem)"]
 
+# round 8/9: the flat byte store of the bank and wasm namespaces (Model/Json.lean, Model/Flat.lean, Proofs/Json.lean, Proofs/FlatChain.lean)
+PROPS["C01"]["technique"] += (" + theorems tying the typed state to the bytes in the store (JSON text of balances / ContractData reads back, "
+                              "the flat store holds exactly the records of the typed state and determines it) with the flat store compared byte for byte "
+                              "(op rawdump) on every case")
+PROPS["C08"]["technique"] += (" + theorems about the flat store (what the root storage holds under a contract's storage key is that contract's entry, "
+                              "key families injective and pairwise disjoint) with the flat store compared byte for byte (op rawdump)")
+
 ENGINES = [
     {"name": "wasm", "path": "lean/CwMt/Model/{Engine,Registry,Wire,Bank}.lean + lean/CwMt/Driver/Wasm.lean + harness/src/{wasm,wasm_gen,wasm_gen2}.rs",
      "serves_properties": ["C01", "C02", "C03", "C04", "C05", "C08", "C10", "C11", "C12", "C13", "C19"],
